@@ -37,6 +37,8 @@ impl Ctx {
     }
 }
 
+pub const WORKER_STACK: usize = 512 << 20;
+
 pub type CaseFn = Box<dyn Fn(&mut Report, &mut Rng, u64) + Sync + Send>;
 
 pub struct CaseSet {
@@ -107,11 +109,26 @@ pub fn run_sets(ctx: &Ctx, sets: &[CaseSet]) -> Report {
         }
         let start = std::time::Instant::now();
         let rep = if set.serial || ctx.threads <= 1 || set.n < 4 {
-            let mut rep = Report::new();
-            for case in 0..set.n {
-                run_one(ctx, set, case, &mut rep);
-            }
-            rep
+            // harness code (Debug rendering of long values, model walks) may recurse
+            // deeply: give every worker a generous stack
+            std::thread::scope(|s| {
+                std::thread::Builder::new()
+                    .stack_size(WORKER_STACK)
+                    .spawn_scoped(s, || {
+                        let mut rep = Report::new();
+                        for case in 0..set.n {
+                            run_one(ctx, set, case, &mut rep);
+                        }
+                        rep
+                    })
+                    .expect("spawn worker")
+                    .join()
+                    .unwrap_or_else(|_| {
+                        let mut r = Report::new();
+                        r.inconclusive(format!("worker thread for {} died", set.tag));
+                        r
+                    })
+            })
         } else {
             let next = AtomicU64::new(0);
             let merged = Mutex::new(Report::new());
@@ -121,7 +138,7 @@ pub fn run_sets(ctx: &Ctx, sets: &[CaseSet]) -> Report {
             let chunk = (set.n / (ctx.threads as u64 * 8)).clamp(1, 4096);
             std::thread::scope(|s| {
                 for _ in 0..ctx.threads {
-                    s.spawn(|| {
+                    let _ = std::thread::Builder::new().stack_size(WORKER_STACK).spawn_scoped(s, || {
                         let mut rep = Report::new();
                         loop {
                             let lo = next.fetch_add(chunk, Ordering::Relaxed);
